@@ -543,7 +543,7 @@ zix_path_lexically_relative(ZixAllocator* const allocator,
     (a.state == ZIX_PATH_ROOT_DIRECTORY) ? 0U : (n_non_empty - n_base_up);
 
   // A result with no up-references or names reduces to "."
-  if (n_up == 0 && a.state == ZIX_PATH_END) {
+  if (n_up == 0 && (a.state == ZIX_PATH_END || zix_is_empty_range(a.range))) {
     return zix_string_view_copy(allocator, dot);
   }
 
